@@ -374,12 +374,17 @@ def assign_keys(members, results):
             return base_key(st, carrier, pos, ch, place)
         return None
 
+    plain = {m["carrier"]: r["status"] for m, r in zip(members, results) if not m["vary"]}
     out = []
     for i, (m, r) in enumerate(zip(members, results)):
         if r["status"] not in FAIL:
             continue
         carrier = m["carrier"]
         key = None
+        if plain.get(carrier) in FAIL:
+            # The carrier does not even replay with plain names: one key for the whole carrier.
+            out.append((i, f"{plain[carrier]}:plain-names:{carrier}", bool(m["vary"])))
+            continue
         if len(m["vary"]) == 1:
             pos, chars, place = m["vary"][0]
             if len(chars) == 1:
@@ -456,8 +461,8 @@ def main():
     for m, r in zip(members, results):
         counts[r["status"]] = counts.get(r["status"], 0) + 1
     for m, r in zip(members, results):
-        if not m["vary"] and r["status"] != "ok":
-            chk.machinery(f"baseline member {member_label(m)} does not replay: {r}")
+        if not m["vary"] and r["status"] not in FAIL + ("ok",):
+            chk.machinery(f"plain-name member {member_label(m)} cannot be built / linked: {r}")
     excluded = [{"member": member_label(m), "status": r["status"],
                  "why": r.get("why") or r.get("stderr", "").strip()[-120:]}
                 for m, r in zip(members, results)
